@@ -110,7 +110,7 @@ class Check:
                 return
         if any(v["key"] == key for v in self.violations):
             return
-        d = os.path.join(VERIF, "replays", self.pid)
+        d = os.path.join(os.environ.get("VERIF_REPLAY_DIR") or os.path.join(VERIF, "replays"), self.pid)
         os.makedirs(d, exist_ok=True)
         path = os.path.join(d, f"{self.replay_prefix}{len(self.violations):03d}.json")
         with open(path, "w") as f:
@@ -219,8 +219,9 @@ class Check:
             "wall_s": round(wall, 2),
             "violations": len(self.violations),
         }
-        os.makedirs(os.path.join(VERIF, "evidence"), exist_ok=True)
-        with open(os.path.join(VERIF, "evidence", f"{self.pid}.json"), "w") as f:
+        evdir = os.environ.get("VERIF_EVIDENCE_DIR") or os.path.join(VERIF, "evidence")  # (mutation runs write elsewhere)
+        os.makedirs(evdir, exist_ok=True)
+        with open(os.path.join(evdir, f"{self.pid}.json"), "w") as f:
             json.dump(ev, f, indent=1)
         print(
             f"{self.pid} tier={self.tier} obligations={ob} discharged={discharged} inconclusive={unknown} "
